@@ -713,6 +713,12 @@ class Normalizer:
                 return self.norm(call2)
             if not inner and len(bvs) <= 1:
                 return T.substitute(fv[2], {b: args[0] for b in bvs})
+        if fv[0] == "attr" and fv[1][0] == "new" and fv[1][1] in self.ctx.p.classes:
+            # a bound method taken as a value (reader.readQueries handed to a helper) and called there: the method call it is
+            m = self.ctx.p.lookup_method(self.ctx.p.classes[fv[1][1]], fv[2], None)
+            if m is not None and m.binds_self and not any(isinstance(a, ast.Starred) for a in e.args) and \
+                    not any(k.arg is None for k in e.keywords):
+                return ("app", m.qualname, fv[1], self._bound(m.call_params(), e))
         return ("mcall", fv, "__call__", args, kwargs)
 
     # ------------------------------------------------------------------ iteration idioms -> comprehensions
@@ -969,6 +975,9 @@ class Normalizer:
                     self.env[name] = ("list", cur[1] + (self.norm(call.args[0]),))
                     continue
                 return None
+            if isinstance(s, ast.With) and all(it.optional_vars is None for it in s.items):
+                # `with file:` around the statements: closing the file is not part of the value
+                return self._body_to_term(list(s.body) + list(stmts[i + 1:]))
             if isinstance(s, ast.Expr) and isinstance(s.value, ast.YieldFrom) and i == len(stmts) - 1:
                 return self.norm(s.value.value)          # a generator that only delegates: its value is what it delegates to
             if isinstance(s, ast.If):
